@@ -104,7 +104,10 @@ fn incremental(b: &[u8]) -> Result<String, String> {
     let mut n = 0usize;
     while raw_len == 0 || st.bytes_read() < raw_len {
         let before = st.bytes_read();
-        let code = slippi::de::parse_event(&mut cur, &mut st, None).map_err(|e| format!("err {}", e))?;
+        let code = match slippi::de::parse_event(&mut cur, &mut st, None) { Ok(c) => c, Err(e) => {
+            // a driver that skips what the parser rejected and carries on: two more calls on the same state and stream (any result but a panic)
+            let _ = slippi::de::parse_event(&mut cur, &mut st, None); let _ = slippi::de::parse_event(&mut cur, &mut st, None);
+            return Err(format!("err {}", e)); } };
         if st.bytes_read() <= before { return Err("no-progress".into()); }
         n += 1; if code == 0x39 { break; }
     }
@@ -146,16 +149,22 @@ fn prefix(rng: &mut Rng, ctx: &mut Ctx) {
         if k % 4 == 3 { r.metadata = None; }
         let b = encode(&r);
         for skip in [false, true] {
-            let mut bad: Vec<usize> = vec![];
+            let mut bad: Vec<usize> = vec![]; let mut bad_at: Vec<usize> = vec![];
             for n in 0..b.len() {
                 ctx.starting(&read_cmd(skip, false, &b[..n]));
                 let o = read_opts(skip, n % 2 == 0);
                 let res = std::panic::catch_unwind(|| slippi::read(Cursor::new(&b[..n]), Some(&o)));
                 match res { Ok(Err(_)) => {} _ => bad.push(n) }
+                // the same truncated copy where a reader may meet it: not at position 0 but behind other bytes — here a complete copy of the same replay
+                // (files stored back to back, the last one cut short): still an error, never something pieced together from what precedes it
+                if n % 3 == k % 3 { let mut both = b.clone(); both.extend_from_slice(&b[..n]);
+                    let res2 = std::panic::catch_unwind(|| { let mut c = Cursor::new(&both[..]); c.set_position(b.len() as u64); slippi::read(&mut c, Some(&o)) });
+                    match res2 { Ok(Err(_)) => {} _ => bad_at.push(n) } }
             }
             let full_ok = read_line(&b, skip, false).1.is_some();
             let mut c = Case::new(format!("prefixes {} {}", skip as u8, hex(&b)), if bad.is_empty() { format!("allerr {} full={}", b.len(), full_ok) } else { format!("bad {:?} full={}", &bad[..bad.len().min(5)], full_ok) });
             if !bad.is_empty() { c.fail("C07", format!("prefix of length {} of a {}-byte well-formed finished replay (skip_frames={}) was not rejected with an error", bad[0], b.len(), skip)); }
+            if !bad_at.is_empty() { c.fail("C07", format!("prefix of length {} of a {}-byte well-formed finished replay (skip_frames={}), read from a position behind a complete copy of the replay, was not rejected with an error", bad_at[0], b.len(), skip)); }
             if !full_ok { c.fail("C07", "the untruncated file itself is rejected"); }
             c.tags = tags.clone(); c.tags.push(format!("skip{}", skip as u8)); c.tags.push(format!("prefixes{}", b.len()));
             ctx.push(c);
@@ -295,6 +304,9 @@ fn irr(rng: &mut Rng, ctx: &mut Ctx) {
                 let chunks: Vec<&[u8]> = pay.chunks(512).collect(); let mut blocks = vec![];
                 for (ci, ch) in chunks.iter().enumerate() { let mut b = vec![0x10u8]; b.extend_from_slice(ch); b.extend(std::iter::repeat(0u8).take(512 - ch.len())); b.extend((ch.len() as u16).to_be_bytes()); b.push(code); b.push((ci + 1 == chunks.len()) as u8); blocks.push(b); }
                 body.splice(i..i + 1, blocks); tags.push(format!("wrapped:{:02x}", code)); } }
+        // the follower flag of a Pre / Post event is "non-zero": a recorder that writes another non-zero value than 1 means the follower all the same
+        if k % 5 == 2 { let val = [2u8, 255, 0x80, 3][(k / 5) % 4]; let mut any = false; for (i, e) in body.iter_mut().enumerate() { if (e[0] == 0x37 || e[0] == 0x38) && e.len() > 6 && e[6] == 1 && (k / 20) % 2 == 0 || (e[0] == 0x37 || e[0] == 0x38) && e.len() > 6 && e[6] == 1 && i % 2 == 0 { e[6] = val; any = true; } }
+            if any { tags.push(format!("follower-flag:{}", val)); } }
         // aligned spans: one more unknown event sized so that the bytes between Game Start and Game End are an exact multiple of a typical buffer
         // size (what a reader that skips or copies that span in chunks sees as "no remainder")
         let mut aligned = 0usize;
@@ -342,7 +354,11 @@ fn irr(rng: &mut Rng, ctx: &mut Ctx) {
                 ctx.push(c); } }
         // the same replay with raw length 0 in the header (a recorder that never went back to fill it in): events are read up to Game End, then the
         // metadata element — same game
-        if k % 7 == 5 && r.end.is_some() && !r.double_end && junk.is_empty() { let mut x0 = x.clone(); x0[11..15].copy_from_slice(&[0, 0, 0, 0]);
+        if k % 7 == 5 { /* by construction: a single Game End and a metadata element are put there if the draw did not, no bytes after Game End */
+            let mut r2 = r.clone(); r2.double_end = false; if r2.end.is_none() { let n = crate::gen::gend_size(r.v); r2.end = Some([2u8, 255, 255, 255, 255, 255][..n.min(6)].to_vec()); }
+            if r2.metadata.is_none() { r2.metadata = Some(b"U\x01aSU\x01b".to_vec()); }
+            let x2 = assemble(&r2, &sizes, &body, &[], &pad); let (l, g) = read_line(&x2, false, false);
+            let mut x0 = x2.clone(); x0[11..15].copy_from_slice(&[0, 0, 0, 0]);
             let (lz, gz) = read_line(&x0, false, false);
             let mut c = Case::new(read_cmd(false, false, &x0), lz.clone()); c.tags = vec!["rawlen0".into()];
             if lz != l { c.fail("C08", format!("replay with raw length 0 in the header reads differently: {} vs {}", &lz[..lz.len().min(120)], &l[..l.len().min(120)])); }
@@ -604,6 +620,10 @@ fn inc(rng: &mut Rng, ctx: &mut Ctx) {
                 match (k / 7) % 3 { 0 => sizes.insert(i, (e.0, e.1.wrapping_add(5))), 1 => sizes.push(e), _ => { sizes.insert(1, (e.0, 1)); sizes.push(e); } }
                 tags.push(format!("dup-table-entry:{}", (k / 7) % 3)); assemble(&r, &sizes, &body_events(&r, &Pad::default()), &[], &pad) }
             else { encode(&r) };
+        // one finished game in nine has raw length 0 in its header (the recorder never went back to fill it in): the event-level API is driven up to
+        // Game End then, and the one-shot reader must return the same game
+        let raw_end_real = 15 + u32::from_be_bytes([b[11], b[12], b[13], b[14]]) as usize;
+        let b = if k % 9 == 7 && r.end.is_some() && !r.double_end { let mut b = b; b[11..15].copy_from_slice(&[0, 0, 0, 0]); tags.push("inc-rawlen0".into()); b } else { b };
         let (plan, pname) = plans(rng, b.len(), k);
         let (fl, fg) = read_line(&b, false, false);
         let mut fails: Vec<(String, String)> = vec![];
@@ -615,7 +635,7 @@ fn inc(rng: &mut Rng, ctx: &mut Ctx) {
             let mut trace = vec![format!("{}:{}", st.frames().id.len(), st.bytes_read())];
             if st.bytes_read() != src.pos - 15 { fails.push(("C12".into(), format!("after parse_start bytes_read {} != raw bytes consumed {}", st.bytes_read(), src.pos - 15))); }
             let mut last_len = 0;
-            while st.bytes_read() < raw_len {
+            while raw_len == 0 || st.bytes_read() < raw_len {
                 let code = slippi::de::parse_event(&mut src, &mut st, None).map_err(|e| format!("err {}", e))?;
                 let len = st.frames().id.len();
                 trace.push(format!("{}:{}", len, st.bytes_read()));
@@ -664,7 +684,7 @@ fn inc(rng: &mut Rng, ctx: &mut Ctx) {
             ctx.push(c); }
         // the incremental API on a stream that ends inside the raw element: every call that returns Ok has consumed exactly the bytes it was
         // given (bytes_read == stream position), and no Game End is reported unless its whole payload was there
-        if k % 2 == 1 && b.len() > 40 { let raw_end = 15 + u32::from_be_bytes([b[11], b[12], b[13], b[14]]) as usize;
+        if k % 2 == 1 && b.len() > 40 { let raw_end = raw_end_real;
             // cuts: inside the last Game End payload (1 byte in, 1 byte short), and two random positions inside the raw element
             let elen = r.end.as_ref().map_or(0, |e| e.len());
             // only cuts that leave the *first* Game End event incomplete (with a duplicated Game End, a cut inside the second copy leaves a finished game)
@@ -677,7 +697,13 @@ fn inc(rng: &mut Rng, ctx: &mut Ctx) {
                     let mut src = Chunked::new(data.clone(), vec![7, 64, 1], None);
                     slippi::de::parse_header(&mut src, None).map_err(|e| format!("err {}", e))?;
                     let mut st = slippi::de::parse_start(&mut src, None).map_err(|e| format!("err {}", e))?;
-                    loop { let code = slippi::de::parse_event(&mut src, &mut st, None).map_err(|e| format!("err {}", e))?;
+                    loop { let code = match slippi::de::parse_event(&mut src, &mut st, None) { Ok(c) => c, Err(e) => {
+                            // history: a caller that tails a growing file asks again once more data is there (the same event from its first byte, the bytes being
+                            // available now); one that gives up on an event carries on with the next call: an error leaves the state usable — no panic
+                            let _ = slippi::de::parse_event(&mut src, &mut st, None);
+                            let from = (15 + st.bytes_read()).min(b.len()); let mut again = Cursor::new(&b[from..]);
+                            for _ in 0..3 { if slippi::de::parse_event(&mut again, &mut st, None).is_err() { break; } }
+                            return Err(format!("err {}", e)); } };
                         if st.bytes_read() != src.pos - 15 { fails.push(("C12".into(), format!("stream cut at {}: after event {:#x} bytes_read {} != bytes delivered {}", cut, code, st.bytes_read(), src.pos - 15))); return Ok("ok overcount".into()); }
                         if code == 0x39 { fails.push(("C12".into(), format!("stream cut at {} (inside the raw element of {} bytes): the incremental API reports Game End", cut, raw_end - 15))); fails.push(("C07".into(), "incremental API reports a finished game on a truncated stream".into())); return Ok("ok gameend".into()); } } }));
                 let line = match res { Err(_) => { fails.push(("C06".into(), "incremental API panicked on a truncated stream".into())); "panic".to_string() } Ok(Err(_)) => "err".to_string(), Ok(Ok(s)) => s };
@@ -698,7 +724,7 @@ fn frag(rng: &mut Rng, ctx: &mut Ctx) {
         let mut c = Case::new(reads_cmd(skip, hash, &plan, &b), String::new());
         let res = std::panic::catch_unwind(|| slippi::read(Chunked::new(b.clone(), plan.clone(), None), Some(&o)));
         match res { Err(_) => { c.impl_out = "panic".into(); c.fail("C06", "reader panicked under short reads"); }
-            Ok(Err(e)) => { c.impl_out = format!("err {}", e); if fg.is_some() { c.fail("C12", format!("read fails under fragmentation {}: {}", pname, e)); c.fail("C11", "read fails under fragmentation"); if skip { c.fail("C10", format!("skip-frames read fails over a stream with short reads ({}): {}", pname, e)); } } }
+            Ok(Err(e)) => { c.impl_out = format!("err {}", e); if fg.is_some() { c.fail("C12", format!("read fails under fragmentation {}: {}", pname, e)); c.fail("C11", "read fails under fragmentation"); if !skip { c.fail("C01", format!("a well-formed replay is rejected when its source returns short reads ({}): {}", pname, e)); } if skip { c.fail("C10", format!("skip-frames read fails over a stream with short reads ({}): {}", pname, e)); } } }
             Ok(Ok(g)) => { let mut s = dump::summary(&g); c.impl_out = s.clone();
                 if s != fl { c.fail("C12", format!("game read under fragmentation {} differs from the unfragmented read", pname)); }
                 // the history oracle (spec offsets, presence, rows per frame) on what was read through short reads, hashing on or off
@@ -902,6 +928,17 @@ fn pread(rng: &mut Rng, ctx: &mut Ctx) {
             let res = std::panic::catch_unwind(|| peppi::io::peppi::read(Cursor::new(&a2), None).map(|g| game_sig(&g)).map_err(|e| e.to_string()));
             match res { Ok(Ok(s)) => { c.impl_out = "ok same".into(); if s != full { c.impl_out = "ok different".into(); c.fail("C18", "unknown archive entries change the game that is read"); } } Ok(Err(e)) => { c.impl_out = format!("err {}", e); c.fail("C18", format!("archive with unknown entries rejected: {}", e)); } Err(_) => { c.impl_out = "panic".into(); c.fail("C18", "reader panicked on unknown archive entries"); } }
             c.tags.push("unknown-entries".into());
+            // members a tool appended behind frames.arrow (tar -r): the reader is done at frames.arrow, with or without skip-frames — the game is the one
+            // in front of it either way
+            if (k / 2) % 2 == 1 && es.iter().any(|e| e.0 == "frames.arrow") { let mut es3 = es.clone();
+                es3.push(("metadata.json".to_string(), br#"{"startAt":"1999-12-31T23:59:59Z","playedOn":"appended"}"#.to_vec()));
+                if (k / 4) % 2 == 0 { if let Some(e) = es.iter().find(|e| e.0 == "end.raw") { let mut e2 = e.1.clone(); e2[0] = if e2[0] == 7 { 2 } else { 7 }; es3.push(("end.raw".to_string(), e2)); } }
+                let a3 = tar_build(&es3);
+                for skip in [true, false] { let o = peppi::io::peppi::de::Opts { skip_frames: skip };
+                    let want = peppi::io::peppi::read(Cursor::new(&a), Some(&o)).map(|g| game_sig(&g)).map_err(|e| e.to_string());
+                    let got = std::panic::catch_unwind(|| peppi::io::peppi::read(Cursor::new(&a3), Some(&o)).map(|g| game_sig(&g)).map_err(|e| e.to_string()));
+                    match got { Err(_) => c.fail("C18", "panic on an archive with members behind frames.arrow"), Ok(got) => if got != want { let m = format!("members appended behind frames.arrow change what is read (skip_frames={}): {:?} vs {:?}", skip, got.as_ref().map(|s| &s[..s.len().min(80)]), want.as_ref().map(|s| &s[..s.len().min(80)])); c.fail("C18", m.clone()); if skip { c.fail("C10", m); } } } }
+                c.tags.push("appended-behind-frames".into()); }
         } else {
             // format version gate
             let v = match rng.next() % 6 { 0 => (1u8, 255u8, 255u8), 1 => (2, 0, 0), 2 => (0, 0, 0), 3 => (2, 0, 1), 4 => ((rng.next() % 4) as u8, (rng.next() >> 8) as u8, (rng.next() >> 8) as u8), _ => ((rng.next() >> 8) as u8, (rng.next() >> 8) as u8, (rng.next() >> 8) as u8) };
